@@ -23,7 +23,9 @@ def SClass.ofChar (ch : Nat) : Option SClass :=
   else if ch = 101 then some .e else none
 
 /-- Parse a structure string `8!n10!n…` into `(count, class)` items.  `acc` is the count read so
-    far (`none` before the first digit).  Only fixed-length items (`!`) are part of the grammar. -/
+    far (`none` before the first digit).  Only fixed-length items (`!`) are part of the grammar; blanks
+    between items carry no meaning in the notation and are skipped (a structure cell with a stray blank
+    still describes the same BBANs). -/
 def parseSpecAux : Str → Option Nat → Option (List (Nat × SClass))
   | [], none => some []
   | [], some _ => none
@@ -36,6 +38,10 @@ def parseSpecAux : Str → Option Nat → Option (List (Nat × SClass))
         | some c, some rest => some ((k, c) :: rest)
         | _, _ => none
       | _, _ => none
+    else if ch = 32 then
+      match acc with
+      | none => parseSpecAux t none
+      | some _ => none
     else none
 
 def parseSpec (s : Str) : Option (List (Nat × SClass)) := parseSpecAux s none
